@@ -59,10 +59,15 @@ func init() {
 			t02 = append(t02, H{Pkg: "scipipe", Fn: "VxH02", Params: p("shape", sh, "two", two), MustReach: []string{"ran"}, MustAssert: []string{"C02.existing-output-not-reexecuted", "C02.existing-file-untouched", "C02.rerun-executes-nothing"}})
 		}
 	}
+	q02 = append(q02, H{Pkg: "scipipe", Fn: "VxH02go", Params: p("preempt", 2), MustReach: []string{"ran"}, MustAssert: []string{"C02.existing-output-not-reexecuted", "C02.existing-file-untouched"}},
+		H{Pkg: "components", Fn: "VxH02glob", Params: p("preempt", 1), MustReach: []string{"ran"}, MustAssert: []string{"C02.rerun-executes-nothing"}})
+	t02 = append(t02, H{Pkg: "scipipe", Fn: "VxH02go", Params: p("preempt", 3), MustReach: []string{"ran"}, MustAssert: []string{"C02.existing-output-not-reexecuted", "C02.existing-file-untouched"}},
+		H{Pkg: "components", Fn: "VxH02glob", Params: p("preempt", 2), MustReach: []string{"ran"}, MustAssert: []string{"C02.rerun-executes-nothing"}})
 	regCheck(&Check{ID: "C02", Quick: q02, Thorough: t02,
 		Bounds: map[string]string{
 			"workflow":  "real Workflow.Run of a -> b, a with 1 or 2 outputs, four output-path shapes",
 			"pre-state": "every subset of the declared outputs pre-exists, each with a symbolic content identity; then the completed workflow is run a second time",
+			"other workflows": "a Go-function task executing (with scheduling points inside the function) while two tasks with existing outputs are created, <= 2 (3) schedule deviations; upstream with three tasks -> dependent file globber -> downstream, run twice, <= 1 (2) deviations",
 			"map order": "symbolic iteration order in anyOutputsExist and finalizePaths",
 		},
 		Outside:     []string{"streaming outputs (C17)", "file-writing components (C19)", "byte contents (identity tags instead)"},
@@ -144,6 +149,7 @@ func init() {
 		Bounds:   graphBounds, Outside: out, Assumptions: as, Stubs: st})
 	q04 := gq([]string{"C04.every-input-set-once"}, []string{"ran"})
 	q04 = append(q04, H{Pkg: "scipipe", Fn: "VxH01wf", Params: p("shape", 0, "two", 1, "N", 60), MustReach: []string{"ran-returned"}, MustAssert: []string{"C04.each-task-once"}})
+	q04 = append(q04, H{Pkg: "components", Fn: "VxH02glob", Params: p("preempt", 1), MustReach: []string{"ran"}, MustAssert: []string{"C04.glob.every-upstream-file-processed"}})
 	regCheck(&Check{ID: "C04", Quick: q04, Thorough: append(gt([]string{"C04.every-input-set-once"}, []string{"ran"}), q04[1:]...),
 		Bounds: graphBounds, Outside: out, Assumptions: as, Stubs: st})
 	q05 := gq([]string{"C05.run-returns", "C05.no-temp-dir-left", "C04.every-input-set-once"}, []string{"ran"})
@@ -257,10 +263,18 @@ func init() {
 		Quick: []H{
 			{Pkg: "scipipe", Fn: "VxTcThread", Params: p("kind", 0, "cores", 2, "max", 3), MustReach: []string{"traced"}, MustAssert: []string{"C06.capacity-is-maxConcurrentTasks"}},
 			{Pkg: "scipipe", Fn: "VxH06run", Params: p("n", 2, "max", 2, "preempt", 2), MustReach: []string{"ran"}, MustAssert: []string{"C06.all-slots-returned"}},
+			{Pkg: "scipipe", Fn: "VxH06over", Params: p("k", 2, "stream", 0, "preempt", 1), MustReach: []string{"ran"}, MustAssert: []string{"C06.tasks-that-do-not-fit-never-run-together"}},
+			{Pkg: "scipipe", Fn: "VxH06over", Params: p("k", 3, "stream", 0, "preempt", 0), MustReach: []string{"ran"}, MustAssert: []string{"C06.tasks-that-do-not-fit-never-run-together"}},
+			{Pkg: "scipipe", Fn: "VxH06over", Params: p("k", 3, "stream", 1, "preempt", 0), MustReach: []string{"ran"}, MustAssert: []string{"C06.tasks-that-do-not-fit-never-run-together"}},
 		},
 		Thorough: []H{
 			{Pkg: "scipipe", Fn: "VxTcThread", Params: p("kind", 0, "cores", 2, "max", 3), MustReach: []string{"traced"}, MustAssert: []string{"C06.capacity-is-maxConcurrentTasks"}},
 			{Pkg: "scipipe", Fn: "VxH06run", Params: p("n", 3, "max", 3, "preempt", 2), MustReach: []string{"ran"}, MustAssert: []string{"C06.all-slots-returned"}},
+			{Pkg: "scipipe", Fn: "VxH06over", Params: p("k", 2, "stream", 0, "preempt", 2), MustReach: []string{"ran"}, MustAssert: []string{"C06.tasks-that-do-not-fit-never-run-together"}},
+			{Pkg: "scipipe", Fn: "VxH06over", Params: p("k", 3, "stream", 0, "preempt", 2), MustReach: []string{"ran"}, MustAssert: []string{"C06.tasks-that-do-not-fit-never-run-together"}},
+			{Pkg: "scipipe", Fn: "VxH06over", Params: p("k", 3, "stream", 1, "preempt", 1), MustReach: []string{"ran"}, MustAssert: []string{"C06.tasks-that-do-not-fit-never-run-together"}},
+			{Pkg: "scipipe", Fn: "VxH06over", Params: p("k", 4, "stream", 1, "preempt", 0), MustReach: []string{"ran"}, MustAssert: []string{"C06.tasks-that-do-not-fit-never-run-together"}},
+			{Pkg: "scipipe", Fn: "VxH06over", Params: p("k", 2, "stream", 1, "preempt", 1), MustReach: []string{"ran"}, MustAssert: []string{"C06.tasks-that-do-not-fit-never-run-together"}},
 		},
 		TCQuick: [2]int{2, 3}, TCThorough: [2]int{3, 3}, TCInductN: 3, TCInductNThorough: 5,
 		Bounds: tcBounds, Outside: []string{"more than 3 concurrent tasks, more than 3 slots in the bounded model checking"}, Assumptions: as,
@@ -271,12 +285,20 @@ func init() {
 			{Pkg: "scipipe", Fn: "VxH06run", Params: p("n", 2, "max", 2, "preempt", 2), MustReach: []string{"ran"}, MustAssert: []string{"C07.no-deadlock"}},
 			{Pkg: "scipipe", Fn: "VxH07proc", Params: p("k", 2, "preempt", 1), MustReach: []string{"ran"}, MustAssert: []string{"C07.k-fitting-tasks-of-one-process-run-simultaneously"}},
 			{Pkg: "scipipe", Fn: "VxH07proc", Params: p("k", 3, "preempt", 0), MustReach: []string{"ran"}, MustAssert: []string{"C07.k-fitting-tasks-of-one-process-run-simultaneously"}},
+			{Pkg: "components", Fn: "VxH07rerun", Params: p("preempt", 1), MustReach: []string{"ran"}, MustAssert: []string{"C07.rerun.tasks-waiting-for-slots-run"}},
+			{Pkg: "scipipe", Fn: "VxH07go", Params: p("k", 2, "preempt", 1), MustReach: []string{"ran"}, MustAssert: []string{"C07.k-fitting-go-tasks-run-simultaneously"}},
+			{Pkg: "scipipe", Fn: "VxH07go", Params: p("k", 3, "preempt", 0), MustReach: []string{"ran"}, MustAssert: []string{"C07.k-fitting-go-tasks-run-simultaneously"}},
+			{Pkg: "scipipe", Fn: "VxH06over", Params: p("k", 2, "stream", 0, "preempt", 0), MustReach: []string{"ran"}, MustAssert: []string{"C07.k-fitting-tasks-of-one-process-run-simultaneously"}},
 		},
 		Thorough: []H{
 			{Pkg: "scipipe", Fn: "VxH07oversize", MustReach: []string{"ran"}, MustAssert: []string{"C07.oversize-rejected-not-hanging", "C07.fitting-cores-run"}},
 			{Pkg: "scipipe", Fn: "VxH06run", Params: p("n", 3, "max", 3, "preempt", 2), MustReach: []string{"ran"}, MustAssert: []string{"C07.no-deadlock"}},
 			{Pkg: "scipipe", Fn: "VxH07proc", Params: p("k", 3, "preempt", 2), MustReach: []string{"ran"}, MustAssert: []string{"C07.k-fitting-tasks-of-one-process-run-simultaneously"}},
 			{Pkg: "scipipe", Fn: "VxH07proc", Params: p("k", 4, "preempt", 1), MustReach: []string{"ran"}, MustAssert: []string{"C07.k-fitting-tasks-of-one-process-run-simultaneously"}},
+			{Pkg: "components", Fn: "VxH07rerun", Params: p("preempt", 2), MustReach: []string{"ran"}, MustAssert: []string{"C07.rerun.tasks-waiting-for-slots-run"}},
+			{Pkg: "scipipe", Fn: "VxH07go", Params: p("k", 3, "preempt", 2), MustReach: []string{"ran"}, MustAssert: []string{"C07.k-fitting-go-tasks-run-simultaneously"}},
+			{Pkg: "scipipe", Fn: "VxH07go", Params: p("k", 4, "preempt", 1), MustReach: []string{"ran"}, MustAssert: []string{"C07.k-fitting-go-tasks-run-simultaneously"}},
+			{Pkg: "scipipe", Fn: "VxH06over", Params: p("k", 2, "stream", 0, "preempt", 2), MustReach: []string{"ran"}, MustAssert: []string{"C07.k-fitting-tasks-of-one-process-run-simultaneously"}},
 		},
 		TCQuick: [2]int{2, 3}, TCThorough: [2]int{2, 3}, TCInductN: 3, TCInductNThorough: 5,
 		Bounds: tcBounds, Outside: []string{"more than 3 concurrent tasks, more than 3 slots in the bounded model checking", "fairness of the Go scheduler"}, Assumptions: as,
